@@ -15,15 +15,16 @@
 (* Deterministic fold; pass A (viol): the V1-V4 monitors of                *)
 (* ValidatorRegistryProps on the observed data; pass B (drift): the        *)
 (* observed post table, error class and decisions are what the code-shaped *)
-(* layer yields from the previously OBSERVED table.                        *)
+(* layer yields from the previously OBSERVED table; acts: the calls whose   *)
+(* outcome a single repaired alternative would have changed.               *)
 (***************************************************************************)
 EXTENDS ValidatorRegistryProps, Json, SequencesExt
 
 CONSTANT TraceFile
 Trace == ndJsonDeserialize(TraceFile)
 
-VARIABLES l, prev, obs, viol, drift
-tvars == <<l, prev, obs, viol, drift>>
+VARIABLES l, prev, obs, viol, drift, acts
+tvars == <<l, prev, obs, viol, drift, acts>>
 
 RangeOf(s) == {s[i] : i \in DOMAIN s}
 StOf(t) == St(t.synced, RangeOf(t.rows))
@@ -49,9 +50,20 @@ SpecAllows(line, pv) ==
          IN /\ r.st = tabs[k]
             /\ r.ret = line.ret
             /\ \A x \in DOMAIN tabs : x # k => tabs[x] = pv[x]
-            /\ RangeOf(line.decs[k]) = DecsOf(line.blk, line.canon, tabs[k])
+            /\ line.ret = "hang" \/ RangeOf(line.decs[k]) = DecsOf(line.blk, line.canon, tabs[k])   \* no decisions after a hang: the process is gone
 
-TInit == l = 1 /\ prev = <<>> /\ obs = {} /\ viol = {} /\ drift = {}
+(* which single repair (or the two nonce repairs together) would have changed this call?  The steps
+   where a defect ACTS; the harness attributes later monitor failures of the run to them. *)
+Alt(d) == CASE d = "batch"  -> [Modes EXCEPT !.batch = "batch"]
+            [] d = "nonceq" -> [Modes EXCEPT !.nonceq = "lex"]
+            [] d = "both"   -> [Modes EXCEPT !.batch = "batch", !.nonceq = "lex"]
+ActsOn(line, pv) ==
+    IF line.k # "step" \/ line.a.op # "sync" THEN {}
+    ELSE LET k == line.a.k
+             r == Run(line.blk, line.canon, pv[k], line.a.tgt, line.a.f)
+         IN {d \in {"batch", "nonceq", "both"} : RunM(Alt(d), line.blk, line.canon, pv[k], line.a.tgt, line.a.f) # r}
+
+TInit == l = 1 /\ prev = <<>> /\ obs = {} /\ viol = {} /\ drift = {} /\ acts = {}
 
 TNext ==
     /\ l <= Len(Trace)
@@ -61,12 +73,13 @@ TNext ==
            tabs == Tabs(line)
        IN /\ viol' = viol \cup {<<l, m>> : m \in LineViol(line, prev, ob)}
           /\ drift' = drift \cup (IF SpecAllows(line, prev) THEN {} ELSE {l})
+          /\ acts' = acts \cup {<<l, d>> : d \in ActsOn(line, prev)}
           /\ prev' = tabs
           /\ obs' = ob \cup {tabs[x] : x \in DOMAIN tabs}
 
 TSpec == TInit /\ [][TNext]_tvars
 
 Done == l <= Len(Trace) \/
-        PrintT(<<"RESULT", ToJson([lines |-> Len(Trace), viol |-> SetToSeq(viol), drift |-> SetToSeq(drift)])>>)
+        PrintT(<<"RESULT", ToJson([lines |-> Len(Trace), viol |-> SetToSeq(viol), drift |-> SetToSeq(drift), acts |-> SetToSeq(acts)])>>)
 
 =============================================================================
